@@ -35,6 +35,9 @@ def run(ck):
     ck.rule("R3", "dis_multiblock adds every block, shares job_done, queues successors, ends with apply_splitting; splitting triggers rebuild_edges", floor=6)
     ck.rule("R4", "AsmBlock.split partitions lines and re-links constraints", floor=3)
     ck.rule("R5", "flow destinations become c_to constraints; split flow records the fall-through", floor=2)
+    ck.rule("R7", "block merging removes the last instruction of the head only where it is known to be a jump with an encoded destination, and keeps every "
+                  "line of the son", floor=2)
+    _merge_rules(ck, m)
 
     from sa.prenorm import inline_helpers
     # private helpers of the engine are part of _dis_block (an extracted `_add_next_constraint` is still _dis_block recording the continuation)
@@ -220,3 +223,41 @@ def run(ck):
     ok = any(isinstance(n, ast.If) and "instr.splitflow()" in norm(n.test) and any(
         isinstance(s, ast.Assign) and norm(s.targets[0]) == "add_next_offset" and norm(s.value) == "True" for s in n.body) for n in walk_body(fn))
     ck.ob("R5", "_dis_block:splitflow-next", ok, m.where(fn), "a split-flow instruction does not record the fall-through")
+
+
+def _merge_rules(ck, m):
+    """bbl_simplifier's only pass: `_merge_blocks` concatenates a block with its single son.  The head's last instruction may be dropped
+    only when it is the jump that linked the two (it breaks the flow AND encodes a destination): an instruction that breaks the flow
+    without a destination (software interrupt, conditional write to PC) falls through into the son and must stay."""
+    from sa.facts import guard_facts, truthy
+    fn = m.funcs.get("_merge_blocks")
+    if fn is None:
+        ck.ob("R7", "_merge_blocks", False, REL, "function vanished")
+        return
+    cfg = CFG(fn)
+    facts = guard_facts(cfg)
+    pops = []
+    for nd in cfg.nodes:
+        for c in node_calls(nd):
+            if isinstance(c.func, ast.Attribute) and c.func.attr == "pop" and norm(c.func.value).endswith(".lines"):
+                pops.append((nd, c))
+        if nd.kind == "stmt" and isinstance(nd.ast, ast.Delete) and any(isinstance(t, ast.Subscript) and norm(t.value).endswith(".lines") for t in nd.ast.targets):
+            pops.append((nd, nd.ast))
+        if nd.kind == "stmt" and isinstance(nd.ast, ast.Assign) and any(norm(t).endswith(".lines") for t in nd.ast.targets) and \
+                isinstance(nd.ast.value, ast.Subscript) and isinstance(nd.ast.value.slice, ast.Slice):
+            pops.append((nd, nd.ast))
+    res_ = None
+    for nd, c in pops:
+        f = facts.get(nd.id, frozenset())
+        bf = [t for t in f if t[0] == "true" and t[1].endswith(".breakflow()")]
+        df = [t for t in f if t[0] == "true" and t[1].endswith(".dstflow()")]
+        same = bool(bf) and bool(df) and any(b[1].rsplit(".", 1)[0] == d[1].rsplit(".", 1)[0] for b in bf for d in df)
+        ck.ob("R7", "_merge_blocks:drops-only-linking-jump", same, m.where(nd.ast),
+              "the head's last instruction is removed where it is only known that %s: an instruction that breaks the flow without an encoded "
+              "destination (INT, SYSCALL, a conditional write to PC) disappears from the merged block"
+              % (sorted(t[1] for t in f if t[0] == "true") or "nothing"))
+    ck.ob("R7", "_merge_blocks:removal-found", bool(pops), m.where(fn), "the removal of the linking jump was not found (extractor blind)")
+    keep = any(isinstance(n, ast.AugAssign) and norm(n.target).endswith(".lines") and norm(n.value).endswith(".lines") for n in walk_body(fn)) or \
+        any(isinstance(c, ast.Call) and isinstance(c.func, ast.Attribute) and c.func.attr == "extend" and norm(c.func.value).endswith(".lines")
+            and c.args and norm(c.args[0]).endswith(".lines") for c in walk_body(fn))
+    ck.ob("R7", "_merge_blocks:son-lines-appended", keep, m.where(fn), "the son's lines are not appended as a whole to the head's")
